@@ -1,5 +1,5 @@
 (* Properties/C15.v — pretty_print is purely cosmetic.  Statements only. *)
-Require Import PX.Base.Str PX.Model.Dom PX.Spec.XmlParse PX.Spec.XmlName PX.Spec.WsEquiv PX.Proofs.Doc PX.Proofs.PinsWriter PX.Gen.Writer.
+Require Import PX.Base.Str PX.Model.Dom PX.Spec.XmlParse PX.Spec.XmlName PX.Spec.WsEquiv PX.Spec.LayoutEquiv PX.Proofs.Doc PX.Proofs.Layout PX.Proofs.PinsWriter PX.Gen.Writer.
 
 (* For EVERY DOM tree that utils.node() can build whose names are XML names (any depth, any mix of
    DetachableElement / PatchedText / cloned minidom Element and Text, any text), the pretty-printed
@@ -11,6 +11,22 @@ Theorem C15_pretty_print_cosmetic : forall n : node, wf_dom n ->
            /\ ws_equiv a b.
 Proof. exact pretty_compact_equiv. Qed.
 Print Assumptions C15_pretty_print_cosmetic.
+
+(* The finer statement (text content): the two documents differ ONLY by the layout the pretty printer adds — white-space-only text
+   holding a line break, inside elements whose text children are all of that kind. White space without a line break (the space
+   between two <output/> elements of a label) and every other text is identical in both modes. *)
+Theorem C15_only_layout_differs : forall n : node, wf_dom n ->
+  exists a b, xml_parse xml_namestart xml_namech (to_pretty n) = Some a
+           /\ xml_parse xml_namestart xml_namech (to_ugly n) = Some b
+           /\ layout_equiv a b.
+Proof. exact pretty_compact_layout_equiv. Qed.
+Print Assumptions C15_only_layout_differs.
+(* ... and the finer relation does see what the coarser one cannot *)
+Theorem C15_space_between_elements_is_content :
+  ws_equiv (two_outputs [Tx [SP]]) (two_outputs []) /\ ~ layout_equiv (two_outputs [Tx [SP]]) (two_outputs [])
+  /\ layout_equiv (two_outputs [Tx [NL; SP; SP]]) (two_outputs []).
+Proof. exact space_between_elements_is_content. Qed.
+Print Assumptions C15_space_between_elements_is_content.
 
 Theorem C15_nonvacuous : wf_dom ex_tree /\
   xml_parse xml_namestart xml_namech (to_pretty ex_tree) <> xml_parse xml_namestart xml_namech (to_ugly ex_tree).
